@@ -42,7 +42,7 @@ EXPECT_ACTIONS = ['Primitive', 'Stream', 'Session', 'Web', 'Scraper', 'Processor
 
 # ------------------------------------------------------------------ TLC: design + generation
 ALL_FIXES = ['chunk_readline', 'trailer_lenient', 'ftp_reply_readline', 'ftp_two_finals', 'msdos_short', 'ftp_parent',
-             'charset_codec', 'last_modified', 'win_names', 'sitemap_gzip', 'pasv_range']
+             'charset_codec', 'last_modified', 'win_names', 'sitemap_gzip', 'pasv_range', 'deflate_fallback']
 
 
 def detect_fixes():
@@ -114,6 +114,18 @@ def detect_fixes():
         futil.parse_address('(10,0,0,3,999,999)')
     except ValueError:
         fx.add('pasv_range')
+    # raw deflate fed one byte at a time decodes (the fallback replays everything seen so far)
+    import zlib
+    from wpull.decompression import DeflateDecompressor
+    co = zlib.compressobj(6, zlib.DEFLATED, -15)
+    raw = co.compress(b'hello hello hello') + co.flush()
+    try:
+        d = DeflateDecompressor()
+        out = b''.join(d.decompress(raw[i:i + 1]) for i in range(len(raw))) + d.flush()
+        if out == b'hello hello hello':
+            fx.add('deflate_fallback')
+    except Exception:
+        pass
     return sorted(fx)
 
 
